@@ -18,6 +18,8 @@ import (
 	registry "github.com/oasisprotocol/oasis-core/go/registry/api"
 	roothash "github.com/oasisprotocol/oasis-core/go/roothash/api"
 	staking "github.com/oasisprotocol/oasis-core/go/staking/api"
+	keymanagerAPI "github.com/oasisprotocol/oasis-core/go/keymanager/api"
+	schedulerAPI "github.com/oasisprotocol/oasis-core/go/scheduler/api"
 	upgrade "github.com/oasisprotocol/oasis-core/go/upgrade/api"
 	vault "github.com/oasisprotocol/oasis-core/go/vault/api"
 	"github.com/oasisprotocol/oasis-core/go/common/version"
@@ -131,34 +133,128 @@ func (w *world) proposalIDs() []uint64 {
 	return ids
 }
 
+// changeParamsTx builds a change-parameters proposal for one of the modules that accept them
+// (staking, governance, registry, scheduler, roothash, vault, key manager), with valid and
+// boundary values.  Kept out of the random stream: staking weights with vote = next-propose = 0
+// (script govweights), scheduler MinValidators above the number of validators (that is the
+// documented precondition, stream precond).
 func (w *world) changeParamsTx(n uint64, fee *transaction.Fee, weightsOK bool) *transaction.Transaction {
 	r := w.rng
-	var ch staking.ConsensusParameterChanges
-	switch r.Intn(6) {
-	case 0:
-		ch.MinTransferAmount = quantity.NewFromUint64(uint64(r.Intn(100)))
-	case 1:
-		// weights that keep vote+next-propose non-zero (see script govweights for the other kind)
-		ch.FeeSplitWeightPropose = quantity.NewFromUint64(uint64(r.Intn(4)))
-		ch.FeeSplitWeightVote = quantity.NewFromUint64(uint64(1 + r.Intn(3)))
-		ch.FeeSplitWeightNextPropose = quantity.NewFromUint64(uint64(r.Intn(3)))
-	case 2:
-		q := qU([]uint64{0, 1, 50_000, 100_000}[r.Intn(4)])
-		ch.MinCommissionRate = &q
-	case 3:
-		q := qBig(pickBig(r, big.NewInt(0), big.NewInt(7), bigPow2(64)))
-		ch.RewardFactorBlockProposed = &q
-	case 4:
-		q := qBig(pickBig(r, big.NewInt(0), big.NewInt(7), bigPow2(64)))
-		ch.RewardFactorEpochSigned = &q
-	default:
-		d := beacon.EpochTime(1 + r.Intn(3))
-		ch.DebondingInterval = &d
-	}
+	mod, body, tag := w.paramChange()
+	_ = r
+	w.count("govparams/" + tag)
 	return governance.NewSubmitProposalTx(n, fee, &governance.ProposalContent{
-		Metadata:         &governance.ProposalMetadata{Title: "verif c10"},
-		ChangeParameters: &governance.ChangeParametersProposal{Module: staking.ModuleName, Changes: cbor.Marshal(ch)},
+		Metadata:         &governance.ProposalMetadata{Title: "verif c10 " + tag},
+		ChangeParameters: &governance.ChangeParametersProposal{Module: mod, Changes: body},
 	})
+}
+
+func (w *world) paramChange() (module string, changes []byte, tag string) {
+	r := w.rng
+	u8 := func(v uint8) *uint8 { return &v }
+	u32 := func(v uint32) *uint32 { return &v }
+	u64 := func(v uint64) *uint64 { return &v }
+	ep := func(v uint64) *beacon.EpochTime { e := beacon.EpochTime(v); return &e }
+	switch r.Intn(14) {
+	case 0, 1, 2: // staking
+		var ch staking.ConsensusParameterChanges
+		switch r.Intn(6) {
+		case 0:
+			ch.MinTransferAmount = quantity.NewFromUint64(uint64(r.Intn(100)))
+		case 1:
+			ch.FeeSplitWeightPropose = quantity.NewFromUint64(uint64(r.Intn(4)))
+			ch.FeeSplitWeightVote = quantity.NewFromUint64(uint64(1 + r.Intn(3)))
+			ch.FeeSplitWeightNextPropose = quantity.NewFromUint64(uint64(r.Intn(3)))
+		case 2:
+			q := qU([]uint64{0, 1, 50_000, 100_000}[r.Intn(4)])
+			ch.MinCommissionRate = &q
+		case 3:
+			q := qBig(pickBig(r, big.NewInt(0), big.NewInt(7), bigPow2(64)))
+			ch.RewardFactorBlockProposed = &q
+		case 4:
+			q := qBig(pickBig(r, big.NewInt(0), big.NewInt(7), bigPow2(64)))
+			ch.RewardFactorEpochSigned = &q
+		default:
+			ch.DebondingInterval = ep(uint64(1 + r.Intn(3)))
+		}
+		return staking.ModuleName, cbor.Marshal(ch), "staking"
+	case 3, 4, 5, 6, 12, 13: // governance itself
+		var ch governance.ConsensusParameterChanges
+		switch r.Intn(10) {
+		case 0, 1, 7, 8: // minimum deposit UP
+			ch.MinProposalDeposit = quantity.NewFromUint64([]uint64{101, 150, 1000, 50_000, 200_000}[r.Intn(5)])
+			return governance.ModuleName, cbor.Marshal(ch), "governance min_proposal_deposit up"
+		case 2, 9: // and DOWN
+			ch.MinProposalDeposit = quantity.NewFromUint64([]uint64{0, 1, 10, 99}[r.Intn(4)])
+			return governance.ModuleName, cbor.Marshal(ch), "governance min_proposal_deposit down"
+		case 3: // voting period (must stay below both upgrade epoch differences)
+			ch.VotingPeriod = ep(uint64(1 + r.Intn(4)))
+			if r.Chance(50) {
+				ch.UpgradeMinEpochDiff = ep(uint64(2 + r.Intn(6)))
+				ch.UpgradeCancelMinEpochDiff = ep(uint64(2 + r.Intn(6)))
+			}
+			return governance.ModuleName, cbor.Marshal(ch), "governance voting_period / upgrade epoch diffs"
+		case 4:
+			ch.StakeThreshold = u8([]uint8{67, 68, 90, 100, 66, 101}[r.Intn(6)])
+			return governance.ModuleName, cbor.Marshal(ch), "governance stake_threshold"
+		case 5:
+			ch.UpgradeMinEpochDiff = ep(uint64(r.Intn(8)))
+			ch.UpgradeCancelMinEpochDiff = ep(uint64(r.Intn(8)))
+			return governance.ModuleName, cbor.Marshal(ch), "governance upgrade epoch diffs"
+		default:
+			ch.GasCosts = transaction.Costs{governance.GasOpSubmitProposal: transaction.Gas(r.Intn(3000)), governance.GasOpCastVote: transaction.Gas(r.Intn(3000))}
+			return governance.ModuleName, cbor.Marshal(ch), "governance gas costs"
+		}
+	case 7: // registry
+		var ch registry.ConsensusParameterChanges
+		switch r.Intn(3) {
+		case 0:
+			// (a value below the expiration of registered nodes makes the state fail the registry
+			// sanity check -- the debug sanity app and a genesis dump -- though no production app)
+			ch.MaxNodeExpiration = ep([]uint64{1_000_000, 2_000_000, 1_000_001, 0, 5}[r.Intn(5)])
+		case 1:
+			b := r.Chance(50)
+			ch.DisableRuntimeRegistration = &b
+		default:
+			ch.MaxRuntimeDeployments = u8(uint8(r.Intn(4)))
+		}
+		return registry.ModuleName, cbor.Marshal(ch), "registry"
+	case 8: // scheduler
+		var ch schedulerAPI.ConsensusParameterChanges
+		switch r.Intn(3) {
+		case 0:
+			v := []int{-1, 0, 1, 2}[r.Intn(4)]
+			ch.MinValidators = &v
+		case 1:
+			v := []int{-1, 0, 1, 2, 3, 100}[r.Intn(6)]
+			ch.MaxValidators = &v
+		default:
+			d := schedulerAPI.VotingPowerDistribution(r.Intn(2))
+			ch.VotingPowerDistribution = &d
+		}
+		return schedulerAPI.ModuleName, cbor.Marshal(ch), "scheduler"
+	case 9: // roothash
+		var ch roothash.ConsensusParameterChanges
+		switch r.Intn(4) {
+		case 0:
+			ch.MaxRuntimeMessages = u32([]uint32{0, 1, 32, 1 << 31}[r.Intn(4)])
+		case 1:
+			ch.MaxInRuntimeMessages = u32([]uint32{0, 1, 32, 1 << 31}[r.Intn(4)])
+		case 2:
+			ch.MaxEvidenceAge = u64([]uint64{0, 1, 20, 1 << 62}[r.Intn(4)])
+		default:
+			ch.MaxPastRootsStored = u64([]uint64{0, 1, 100}[r.Intn(3)])
+		}
+		return roothash.ModuleName, cbor.Marshal(ch), "roothash"
+	case 10: // vault
+		var ch vault.ConsensusParameterChanges
+		ch.MaxAuthorityAddresses = u8([]uint8{0, 1, 32, 255}[r.Intn(4)])
+		return vault.ModuleName, cbor.Marshal(ch), "vault"
+	default: // key manager (gas costs only)
+		var ch secrets.ConsensusParameterChanges
+		ch.GasCosts = transaction.Costs{secrets.GasOpUpdatePolicy: transaction.Gas(r.Intn(3000))}
+		return keymanagerAPI.ModuleName, cbor.Marshal(ch), "keymanager"
+	}
 }
 
 // randomTx builds one transaction of a random enabled kind.
@@ -176,6 +272,9 @@ func (w *world) randomTx(local map[staking.Address]uint64) (genTx, bool) {
 	}
 	// DebugMockBackend only: a SetEpoch in the first two blocks makes the scheduler see an epoch
 	// change for which the (debug) beacon never generated entropy ("random beacon not available")
+	if w.has(fGov) {
+		kinds = append(kinds, fGov, fGov) // governance traffic weighs three times
+	}
 	if w.has(fEpochJump) && w.k.Mock && w.c.Next > 2 {
 		kinds = append(kinds, fEpochJump)
 	}
@@ -233,7 +332,7 @@ func (w *world) randomTx(local map[staking.Address]uint64) (genTx, bool) {
 	case fGov:
 		ids := w.proposalIDs()
 		switch {
-		case len(ids) == 0 || r.Chance(25):
+		case len(ids) == 0 || r.Chance(40):
 			if r.Chance(20) {
 				// cancel a pending upgrade when there is one (else a random id: fails at submit)
 				id := uint64(r.Intn(5))
@@ -254,7 +353,10 @@ func (w *world) randomTx(local map[staking.Address]uint64) (genTx, bool) {
 				if w.prev != nil {
 					ep = w.prev.epoch
 				}
-				at := ep + 3 + uint64(r.Intn(3)) // UpgradeMinEpochDiff = 3
+				at := ep + 3 + uint64(r.Intn(3))
+				if w.prev != nil {
+					at = ep + w.prev.govUMin + uint64(r.Intn(3)) // the CURRENT UpgradeMinEpochDiff
+				}
 				if r.Chance(15) {
 					at = ep + uint64(r.Intn(3)) // too soon
 				}
@@ -467,6 +569,26 @@ func (w *world) randomBlock(b int) *blockPlan {
 	for i := 0; i < n; i++ {
 		if t, ok := w.randomTx(local); ok {
 			bp.txs = append(bp.txs, t)
+		}
+	}
+	// campaigns: two of three proposals are pushed through (every validator that has not
+	// voted yet votes yes), so that parameter changes actually take effect while other
+	// proposals, submitted under the old parameters, are still open
+	if w.has(fGov) && w.prev != nil && r.Chance(60) {
+		for _, p := range w.prev.props {
+			if p.State != governance.StateActive || p.ID%3 == 0 {
+				continue
+			}
+			voted := map[staking.Address]bool{}
+			for _, v := range w.prev.votes[p.ID] {
+				voted[v.Voter] = true
+			}
+			for _, v := range w.g.Validators {
+				if !voted[v.EntityAddress()] {
+					tx := muxdrv.TxCastVote(w.nextNonce(v.Entity, local), muxdrv.Fee(uint64(r.Intn(40)), muxdrv.DefaultGas), p.ID, governance.VoteYes)
+					bp.txs = append(bp.txs, genTx{raw: muxdrv.Sign(v.Entity, tx), kind: "cast_vote (campaign)"})
+				}
+			}
 		}
 	}
 	w.count(fmt.Sprintf("block/txs %s", bucket(len(bp.txs))))
